@@ -396,3 +396,17 @@ class S:
     def _mark(self, c):
         self._done.update(self._children.get(c, ()))
 '''
+
+
+def none_without_established_absence(t, payload_suffixes=(".result",)) -> bool:
+    """A recorded-success path that delivers None without deserialising anything is only right when the path *established* that no payload was
+    recorded (`<payload> is None` decided True, or the details object is absent) - a truthiness test conflates '' / '0' / '[]' payloads with none."""
+    from .values import Const
+    if t.outcome != "return" or not (isinstance(t.value, Const) and t.value.value is None):
+        return False
+    if [e for e in t.events if e.kind == "DES"]:
+        return False
+    for k, v in t.pc:
+        if v is True and k.endswith(" is None") and (any(k[: -len(" is None")].endswith(sfx) for sfx in payload_suffixes) or k[: -len(" is None")].endswith("_details")):
+            return False
+    return True
